@@ -12,7 +12,7 @@
    server, see findings/C15.md): they are kept as [_statement], with [_refuted] witnesses and
    [_partial] theorems whose extra hypothesis excludes exactly the trigger. *)
 From Coq Require Import ZArith NArith List Bool.
-From Tinode Require Import Sys.Call Sys.CallProofs.
+From Tinode Require Import Sys.Call Sys.CallProofs Sys.CallCat Sys.CallCatProofs.
 Import ListNotations.
 Open Scope Z_scope.
 
@@ -259,3 +259,142 @@ Example c15_full_call_store :
   map (fun m => (m_seq m, m_from m, m_replace m, m_webrtc m)) (store (final cfg_ex (init2 1%N 2%N) full_call)) =
   [(4, 2%N, None, Some (WClient 0)); (3, 1%N, Some 1, Some WFinished); (2, 1%N, Some 1, Some WAccepted); (1, 1%N, None, Some (WClient 0))].
 Proof. vm_compute. reflexivity. Qed.
+
+(* ---- only in a peer-to-peer topic ------------------------------------------------------ *)
+(* Sys/CallCat.v: Topic.handlePubBroadcast with the topic category (and the status bits) as
+   parameters.  In EVERY category other than p2p, from EVERY topic state, whatever the session,
+   the text of head.webrtc, head.replace (an invitation or a client-made "replacement") and the
+   content: the state is returned unchanged - nothing stored, lastID not advanced, no
+   Topic.currentCall, the timer not armed - and the only output is one error code to the sender
+   (503 paused/deleted, 403 read-only, 501 calling not configured, otherwise 403); never 202. *)
+Theorem c15_call_only_in_p2p : forall cfg c inactive readonly st s w repl content,
+  c <> CatP2P ->
+  pub_broadcast cfg c inactive readonly st s (Some w) repl content =
+    (st, [(s, FCtrl (non_p2p_code cfg inactive readonly) None)]) /\
+  In (non_p2p_code cfg inactive readonly) [503; 403; 501].
+Proof.
+  intros cfg c ina ro st s w repl content Hc. split;
+    [exact (pub_non_p2p_call_refused cfg c ina ro st s w repl content (cat_not_p2p c Hc))|exact (non_p2p_code_values cfg ina ro)].
+Qed.
+Print Assumptions c15_call_only_in_p2p.
+
+(* conversely: whenever handlePubBroadcast creates a call, the topic is p2p, calling is configured,
+   the topic is neither paused nor read-only and the request carries head.webrtc *)
+Theorem c15_call_created_only_in_p2p : forall cfg c inactive readonly st s w repl content st' os,
+  pub_broadcast cfg c inactive readonly st s w repl content = (st', os) ->
+  current st = None -> current st' <> None ->
+  is_p2p c = true /\ configured cfg = true /\ inactive = false /\ readonly = false /\ w <> None.
+Proof. exact pub_call_created_only_p2p. Qed.
+Print Assumptions c15_call_created_only_in_p2p.
+
+(* for the p2p category the function with the category parameter IS the gate of Call.step, so
+   c15_gate above is a theorem about the same code; likewise the {note what=call} path *)
+Theorem c15_p2p_instance_is_the_gate : forall cfg st s content w,
+  mem s (attached st) = true ->
+  step_raw cfg st (OInvite s content w) = pub_broadcast cfg CatP2P false false st s (Some w) None content /\
+  step_raw cfg st (OPub s content) = pub_broadcast cfg CatP2P false false st s None None content.
+Proof. intros cfg st s content w Ha. split; [exact (pub_p2p_is_invite cfg st s content w Ha)|exact (pub_p2p_is_pub cfg st s content Ha)]. Qed.
+Print Assumptions c15_p2p_instance_is_the_gate.
+
+Theorem c15_p2p_instance_is_the_event_path : forall cfg st s e q p,
+  step_raw cfg st (OEvent s e q p) =
+    match session_note_call true q (mem s (attached st)) e with
+    | NDrop => (st, [])
+    | NAttachFirst => (st, [(s, FCtrl 409 None)])
+    | NTopic => note_broadcast_call cfg false st s e q p
+    | NHub => if loaded st then note_broadcast_call cfg false st s e q p else (st, [])
+    end.
+Proof. exact note_p2p_is_event. Qed.
+Print Assumptions c15_p2p_instance_is_the_event_path.
+
+(* an ordinary publication (no head.webrtc), in any category: the call state is not touched and
+   what is stored / fanned out carries no head.webrtc *)
+Theorem c15_plain_pub_keeps_call_state : forall cfg c inactive readonly st s repl content st' os,
+  pub_broadcast cfg c inactive readonly st s None repl content = (st', os) ->
+  current st' = current st /\ timer st' = timer st /\ attached st' = attached st /\ users st' = users st /\
+  loaded st' = loaded st /\
+  (store st' = store st \/ exists m, plain m /\ store st' = m :: store st) /\
+  (forall x f, In (x, f) os -> (exists code q, f = FCtrl code q /\ x = s) \/ exists m t, f = FData m t /\ plain m).
+Proof. exact pub_plain_effect. Qed.
+Print Assumptions c15_plain_pub_keeps_call_state.
+
+(* call {note}s: Session.note drops what=call unless the expanded name is a p2p name; and the
+   topic handler itself (handleNoteBroadcast -> handleCallEvent, which has no category test)
+   does nothing in a topic without a call - which is every topic that is not p2p (below) *)
+Theorem c15_call_note_outside_p2p_dropped : forall q attached_here e, session_note_call false q attached_here e = NDrop.
+Proof. exact session_note_non_p2p. Qed.
+Print Assumptions c15_call_note_outside_p2p_dropped.
+
+Theorem c15_call_note_without_call_ignored : forall cfg inactive st s e q p,
+  current st = None -> note_broadcast_call cfg inactive st s e q p = (st, []).
+Proof. exact note_no_call. Qed.
+Print Assumptions c15_call_note_without_call_ignored.
+
+(* the world of Sys/CallCat.v: the p2p topic of Sys/Call.v and any number of other topics (group
+   topic / channel, 'me', 'fnd', 'sys' - 'sys' takes publications from unattached sessions).
+   Over ALL histories of requests to all of them, from every world whose non-p2p topics start
+   without a call (init_other): no topic other than a p2p topic ever has a current call, an armed
+   establishment timer or a stored message with head.webrtc *)
+Theorem c15_no_call_outside_p2p : forall cfg w xs, others_clean w -> others_clean (wfinal cfg w xs).
+Proof. intros cfg w xs. exact (wrun_clean cfg xs w). Qed.
+Print Assumptions c15_no_call_outside_p2p.
+
+Theorem c15_init_world_clean : forall a b l,
+  (forall k t, In (k, t) l -> exists c owner ws atts ld, t = init_other c owner ws atts ld) -> others_clean (init_world a b l).
+Proof.
+  intros a b l H k t Hin _. destruct (H k t Hin) as [c [owner [ws [atts [ld E]]]]]. subst t. apply init_other_clean.
+Qed.
+Print Assumptions c15_init_world_clean.
+
+(* one request addressed to a topic that is not p2p, from any world: the p2p topic (and its call)
+   is not touched; every output is a {ctrl} to the sender or a {data} without head.webrtc - no
+   {info}; with head.webrtc the world does not change at all and the sender gets at most one error
+   code (409 not attached, 503, 403, 501); a call {note} changes nothing and is not answered *)
+Theorem c15_invitation_outside_p2p_no_trace : forall cfg w s k content wt repl w' os t,
+  lookup k (w_others w) = Some t -> is_p2p (o_cat t) = false ->
+  wstep cfg w (XPub s k content wt repl) = (w', os) ->
+  w_p2p w' = w_p2p w /\
+  Forall (other_out_ok s) os /\
+  (wt <> None -> w' = w) /\
+  (wt <> None -> os = [] \/ exists code, os = [(s, FCtrl code None)] /\ In code [409; 503; 403; 501]).
+Proof. exact xpub_other. Qed.
+Print Assumptions c15_invitation_outside_p2p_no_trace.
+
+Theorem c15_call_note_outside_p2p_ignored : forall cfg w s k e q p t,
+  lookup k (w_others w) = Some t -> is_p2p (o_cat t) = false ->
+  wstep cfg w (XNote s k e q p) = (w, []).
+Proof. exact xnote_other. Qed.
+Print Assumptions c15_call_note_outside_p2p_ignored.
+
+(* requests to the p2p topic are exactly Call.step (so every theorem above about [step] holds in
+   the world), requests to other topics leave the p2p topic alone *)
+Theorem c15_world_p2p_is_step : forall cfg w o,
+  w_p2p (fst (wstep cfg w (XOld o))) = fst (step cfg (w_p2p w) o) /\ snd (wstep cfg w (XOld o)) = snd (step cfg (w_p2p w) o).
+Proof. exact wstep_old. Qed.
+Print Assumptions c15_world_p2p_is_step.
+
+Theorem c15_other_topics_keep_p2p : forall cfg w x, (forall o, x <> XOld o) -> w_p2p (fst (wstep cfg w x)) = w_p2p w.
+Proof. exact wstep_x_keeps_p2p. Qed.
+Print Assumptions c15_other_topics_keep_p2p.
+
+(* the hypotheses are satisfiable: a group topic (1: users 1 and 2 write, session 1 and 3 attached,
+   session 5 of user 3 reads it as a channel) and 'sys' (2: root session 8 attached) *)
+Definition cfg_x : config := mkCfg true [(1, 1); (3, 2); (5, 3); (8, 3)]%N.
+Definition world_x : world :=
+  init_world 1%N 2%N [(1%N, init_other CatGrp 1%N [(1%N, true); (2%N, true)] [1; 3; 5]%N true); (2%N, init_other CatSys 0%N [] [8%N] true)].
+Definition hist_x : list xop :=
+  [XOld (OAttach 1); XOld (OAttach 3); XPub 1 1 7 None None; XPub 1 1 8 (Some 0%N) None; XPub 5 2 9 (Some 0%N) None;
+   XPub 5 2 10 (Some 2%N) (Some 1); XNote 3 1 EvAccept 1 4; XOld (OInvite 1 101 0); XPub 3 1 11 (Some 0%N) None; XPub 5 2 12 None None].
+Definition ctrl_codes (os : list out) : list (N * Z) :=
+  flat_map (fun so => match snd so with FCtrl code _ => [(fst so, code)] | _ => [] end) os.
+Definition call_frames (os : list out) : list out :=
+  filter (fun so => match snd so with FData m _ => match m_webrtc m with Some _ => true | None => false end
+                                    | FInfo _ _ _ _ _ | FInfoMe _ _ _ _ _ => true | _ => false end) os.
+Example c15_world_example :
+  map ctrl_codes (snd (wrun cfg_x world_x hist_x)) =
+    [[(1%N, 200)]; [(3%N, 200)]; [(1%N, 202)]; [(1%N, 403)]; [(5%N, 403)]; [(5%N, 403)]; []; [(1%N, 202)]; [(3%N, 403)]; [(5%N, 202)]] /\
+  map (fun os => length (call_frames os)) (snd (wrun cfg_x world_x hist_x)) = [0; 0; 0; 0; 0; 0; 0; 2; 0; 0]%nat /\
+  map (fun kt => (fst kt, current (o_st (snd kt)), timer (o_st (snd kt)), lastid (o_st (snd kt))))
+      (w_others (wfinal cfg_x world_x hist_x)) = [(1%N, None, false, 1); (2%N, None, false, 1)] /\
+  option_map c_seq (current (w_p2p (wfinal cfg_x world_x hist_x))) = Some 1.
+Proof. vm_compute. repeat split; reflexivity. Qed.
